@@ -42,7 +42,7 @@ def splice(repo, scratch, kind='kani'):
             shutil.copy(s, os.path.join(scratch, item))
     os.makedirs(os.path.join(scratch, '.cargo'), exist_ok=True)
     open(os.path.join(scratch, '.cargo', 'config.toml'), 'w').write('[net]\noffline = true\n')
-    modname = 'verif_kani' if kind == 'kani' else 'verif_native'
+    modname = {'kani': 'verif_kani', 'native': 'verif_native', 'replay': 'verif_replay'}[kind]
     attr = '#[cfg(kani)]' if kind == 'kani' else '#[cfg(test)]'
     added_files, touched = [], []
     oracle = oracle_gen.generate(os.path.join(os.path.dirname(HERE), 'vx'))
